@@ -158,7 +158,65 @@ def drv_getbool(job, inputs, work):
     return bad, "value=%r expected_success=%s\n%s" % (text, expect_ok, out[-1500:])
 
 
-DRIVERS = {"numget": drv_numget, "getbool": drv_getbool}
+def _define(job, name, default=None):
+    for d in job.defines:
+        if d.startswith("-D" + name + "="):
+            v = d.split("=", 1)[1]
+            if v.startswith('"') and v.endswith('"'):
+                v = v[1:-1].encode("latin-1").decode("unicode_escape")
+            return v
+    return default
+
+
+def drv_parser(job, inputs, work):
+    """Parser scenarios: rebuild the file (context + line under test +
+    follow-up) and run the real parser under ASan/UBSan."""
+    exe, err = build_native("replay/parser.c", work)
+    if not exe:
+        return False, "native build failed: " + err[-800:]
+    line = bytearray()
+    vals = {}
+    for k, v in inputs.items():
+        m = re.match(r"^in_line_bytes\[(\d+)l?\]$", k)
+        if m:
+            iv = intval(v)
+            vals[int(m.group(1))] = (iv if iv is not None else 0) & 0xFF
+    n = int(_define(job, "N", "8"))
+    for i in range(n):
+        line.append(vals.get(i, 0))
+    ctx = b"".join(_define(job, "CTX%d" % i, "").encode("latin-1") for i in range(int(_define(job, "NCTX", "0"))))
+    follow = (_define(job, "FOLLOW", "") or "").encode("latin-1")
+    delim, comment = _define(job, "DELIM", "="), _define(job, "COMMENT", "#")
+    py, join = _define(job, "PYTHON", "0"), _define(job, "JOIN", "0")
+    kind = _define(job, "KIND")
+
+    def run_file(content, tag):
+        pth = os.path.join(work, tag)
+        with open(pth, "wb") as f:
+            f.write(content)
+        return run_exe(exe, [pth, delim, comment, py, join], work)
+
+    # the parser sees the line up to the first NUL; keep the raw bytes (a NUL in a file is legal input)
+    text = bytes(line)
+    if b"\0" in text:
+        cut = text.index(b"\0")
+        shown = text[:cut]
+    else:
+        shown = text
+    rc_a, out_a = run_file(ctx + shown + follow, "with_line")
+    report = "file with the line under test %r:\n%s" % (shown, out_a[-2500:])
+    if rc_a != 0 or "ERROR: AddressSanitizer" in out_a or "runtime error" in out_a:
+        return True, report
+    if kind in ("K_COMMENT", "K_BLANK"):
+        rc_b, out_b = run_file(ctx + follow, "without_line")
+        ents = lambda o: [l.split("|")[1:4] for l in o.splitlines() if l.startswith("ENTRY|")]
+        code = lambda o: o.split()[1] if o.startswith("RC") else "?"
+        differs = ents(out_a) != ents(out_b) or code(out_a) != code(out_b)
+        return differs, report + "\nsame file without that line:\n" + out_b[-1500:]
+    return False, report + "\n(no native oracle for this scenario kind: the dump is attached)"
+
+
+DRIVERS = {"numget": drv_numget, "getbool": drv_getbool, "parser": drv_parser}
 
 
 def replay_file(path):
